@@ -10,6 +10,7 @@ import (
 	"go/types"
 	"os"
 	"path/filepath"
+	"regexp"
 	"sort"
 	"strings"
 	"sync"
@@ -545,16 +546,63 @@ func (c *Ctx) Finish(k *KnownFile) *Result {
 		}
 	}
 	r := &Result{Obligations: c.obs, Counts: map[string]int{}, PerRule: map[string]map[string]int{}}
+	// 1. exact matching of known findings
+	usedFinding := map[int]bool{}
 	for _, o := range c.obs {
-		if o.Status == Violated || o.Status == Undecided {
-			for _, f := range k.Findings {
-				if f.Property == o.Property && f.Rule == o.Rule && f.Construct == o.Construct && o.Status == Violated {
-					o.Known = true
-					if o.Detail == "" {
-						o.Detail = f.What
-					}
+		if o.Status != Violated {
+			continue
+		}
+		for i, f := range k.Findings {
+			if f.Property == o.Property && f.Rule == o.Rule && f.Construct == o.Construct {
+				o.Known = true
+				usedFinding[i] = true
+				if o.Detail == "" {
+					o.Detail = f.What
 				}
 			}
+		}
+	}
+	// 2. re-identification after a rename: a listed finding whose construct no longer occurs, and exactly one unmatched
+	// violated obligation of the same rule whose construct has the same shape (unexported identifiers masked), are the
+	// same finding under a new name. Ambiguity (two candidates) is never resolved in favour of silence.
+	for _, shapeOf := range []func(string) string{ConstructShape, ConstructShapeCoarse} {
+		for i, f := range k.Findings {
+			if usedFinding[i] || f.Property != c.Prop {
+				continue
+			}
+			// the old construct must really be gone
+			gone := true
+			for _, o := range c.obs {
+				if o.Rule == f.Rule && o.Construct == f.Construct {
+					gone = false
+				}
+			}
+			if !gone {
+				continue
+			}
+			shape := shapeOf(f.Construct)
+			var cand []*Obligation
+			for _, o := range c.obs {
+				if o.Status == Violated && !o.Known && o.Rule == f.Rule && shapeOf(o.Construct) == shape {
+					cand = append(cand, o)
+				}
+			}
+			// other unused findings with the same shape compete for the same candidates: require a 1:1 situation
+			competitors := 0
+			for j, g := range k.Findings {
+				if j != i && !usedFinding[j] && g.Property == f.Property && g.Rule == f.Rule && shapeOf(g.Construct) == shape {
+					competitors++
+				}
+			}
+			if len(cand) == 1 && competitors == 0 {
+				cand[0].Known = true
+				cand[0].Detail = "re-identified known finding (was: " + f.Construct + "): " + cand[0].Detail
+				usedFinding[i] = true
+			}
+		}
+	}
+	for _, o := range c.obs {
+		if o.Status == Violated || o.Status == Undecided {
 			if o.Known {
 				r.Known = append(r.Known, o)
 			} else {
@@ -568,6 +616,34 @@ func (c *Ctx) Finish(k *KnownFile) *Result {
 		r.PerRule[o.Rule][o.Status]++
 	}
 	return r
+}
+
+var shapeRecvRe = regexp.MustCompile(`\(\*?([A-Za-z0-9_/]+)\.[A-Za-z0-9_]+\)\._`)
+
+// ConstructShapeCoarse additionally forgets whether a function is a method: "(*pkg.T)._" and "pkg._" coincide (a function
+// turned into a method or vice versa).
+func ConstructShapeCoarse(s string) string {
+	return shapeRecvRe.ReplaceAllString(ConstructShape(s), "$1._")
+}
+
+var shapeSymRe = regexp.MustCompile(`([./])([a-z_][A-Za-z0-9_]*)(\)?)`)
+var shapeOrdRe = regexp.MustCompile(` #[0-9]+$`)
+
+// ConstructShape masks the unexported identifiers of a construct key (symbols that follow a "." and start with a
+// lower-case letter: functions, methods, fields, unexported types) while keeping package paths, exported names and the
+// rule-specific wording. Used only to re-identify a listed known finding after a rename.
+func ConstructShape(s string) string {
+	s = shapeOrdRe.ReplaceAllString(s, "")
+	// package path segments are followed by "/" or are the last segment before a "."; mask only ".name" symbols
+	return shapeSymRe.ReplaceAllStringFunc(s, func(m string) string {
+		if m[0] == '/' {
+			return m // path segment
+		}
+		if strings.HasSuffix(m, ")") {
+			return "._)"
+		}
+		return "._"
+	})
 }
 
 // Elapsed since load started.
